@@ -28,6 +28,7 @@
 #include <sstream>
 #include <stdexcept>
 #include <string>
+#include <thread>
 #include <unordered_set>
 #include <utility>
 #include <vector>
@@ -223,6 +224,7 @@ inline char*& cur_buf() { static char* b = new char[1 << 16]; return b; }
 inline std::size_t& cur_len() { static std::size_t n = 0; return n; }
 inline std::string& cur_path() { static std::string p; return p; }
 inline std::function<void()>& death_hook() { static std::function<void()> f; return f; }
+inline std::atomic<long long>& case_started() { static std::atomic<long long> t{0}; return t; }
 inline void dump_current()
 {
     static bool done = false;
@@ -256,7 +258,36 @@ inline void set_current_case(Case const& c, char const* target = "")
     std::size_t n = std::min<std::size_t>(s.size(), (1 << 16) - 1);
     std::memcpy(detail::cur_buf(), s.data(), n);
     detail::cur_len() = n;
+    detail::case_started().store(std::chrono::duration_cast<std::chrono::milliseconds>(std::chrono::steady_clock::now().time_since_epoch()).count());
 }
+
+// Watchdog: a single generated case normally takes micro- to milliseconds. One that is still running after
+// VERIF_CASE_TIMEOUT seconds (default 120) is reported as a non-terminating case: the current case is dumped and the
+// process exits with code 97 (the driver turns that into a violation with the case as replay).
+inline void start_watchdog()
+{
+    static bool started = false;
+    if (started) return;
+    started = true;
+    long limit_s = 120;
+    if (char const* e = std::getenv("VERIF_CASE_TIMEOUT")) limit_s = std::max(5L, std::atol(e));
+    std::thread([limit_s] {
+        for (;;)
+        {
+            std::this_thread::sleep_for(std::chrono::seconds(1));
+            long long st = detail::case_started().load();
+            if (st == 0) continue;
+            long long now = std::chrono::duration_cast<std::chrono::milliseconds>(std::chrono::steady_clock::now().time_since_epoch()).count();
+            if (now - st > limit_s * 1000)
+            {
+                std::fprintf(stderr, "WATCHDOG: the current case has been running for more than %ld s\n", limit_s);
+                detail::dump_current();
+                std::_Exit(97);
+            }
+        }
+    }).detach();
+}
+inline void case_finished() { detail::case_started().store(0); }
 
 extern "C" void __sanitizer_set_death_callback(void (*)(void)) __attribute__((weak));
 
@@ -503,6 +534,7 @@ inline int main_impl(int argc, char** argv, char const* target_name)
         {
             Case c = Case::parse(read_file(argv[2]));
             if (argc >= 4) install_death_dump(argv[3]);
+            start_watchdog();
             set_current_case(c);
             verif_replay(c);
         }
@@ -545,6 +577,7 @@ inline int main_impl(int argc, char** argv, char const* target_name)
     std::string evpath = a.outdir + "/" + target_name + ".evidence.json";
     install_death_dump(a.outdir + "/" + target_name + ".current_case.json");
     detail::death_hook() = [evpath] { ev.write(evpath); };
+    start_watchdog();
     Timer t;
     int rc = 0;
     try
@@ -555,6 +588,7 @@ inline int main_impl(int argc, char** argv, char const* target_name)
     {
         ev.fail("{}", std::string("harness-level exception: ") + e.what());
     }
+    case_finished();
     ev.note("wall_s=" + std::to_string(t.s()));
     if (ev.n_failures() > 0) rc = 1;
     ev.write(evpath);
